@@ -453,23 +453,34 @@ Section Expand.
                   else jump (if d_isx d then with_xpath_of d body else body)
               end
           | None =>
-              let args' := oall xgo args in
-              let ob' := match ob with
-                         | None => Some None
-                         | Some l =>
-                             match oall (fun ka => let '(k, a) := ka in
-                                                   match xgo a with Some a' => Some (k, a') | None => None end) l with
-                             | Some l' => Some (Some l')
-                             | None => None
-                             end
-                         end in
-              let ar' := match ar with
-                         | None => Some None
-                         | Some l => match oall xgo l with Some l' => Some (Some l') | None => None end
-                         end in
-              match args', ob', ar' with
-              | Some a, Some o, Some r => Some (Decl c e x xd' fn a ig pa None o r ty nt kp)
-              | _, _, _ => None
+              (* only the part that makes the declaration what it is (the first field set, in the
+                 documented order const, external, custom_func, custom_parse, object, array) is
+                 kept and substituted in; anything else the author may have left on it is void *)
+              match c, e, fn, pa, ob, ar with
+              | Some _, _, _, _, _, _ =>
+                  Some (Decl c None x xd' None [] ig None None None None ty nt kp)
+              | None, Some _, _, _, _, _ =>
+                  Some (Decl None e x xd' None [] ig None None None None ty nt kp)
+              | None, None, Some _, _, _, _ =>
+                  match oall xgo args with
+                  | Some a => Some (Decl None None x xd' fn a ig None None None None ty nt kp)
+                  | None => None
+                  end
+              | None, None, None, Some _, _, _ =>
+                  Some (Decl None None x xd' None [] ig pa None None None ty nt kp)
+              | None, None, None, None, Some l, _ =>
+                  match oall (fun ka => let '(k, a) := ka in
+                                        match xgo a with Some a' => Some (k, a') | None => None end) l with
+                  | Some l' => Some (Decl None None x xd' None [] ig None None (Some l') None ty nt kp)
+                  | None => None
+                  end
+              | None, None, None, None, None, Some l =>
+                  match oall xgo l with
+                  | Some l' => Some (Decl None None x xd' None [] ig None None None (Some l') ty nt kp)
+                  | None => None
+                  end
+              | None, None, None, None, None, None =>
+                  Some (Decl None None x xd' None [] ig None None None None ty nt kp)
               end
           end
       end.
